@@ -24,7 +24,7 @@ def dict_scenario(chk, kind, keys, dense):
     with K.stub_blackjax(rec):
         d = sum(int(np.prod(np.shape(K.STATE_AB[x]), dtype=int)) for x in keys)
         Kc = gs.NUTSKernel if kind == "nuts" else gs.HMCKernel
-        k = Kc(list(keys), initial_step_size=0.1, mm_diag=not dense)
+        k = Kc(list(keys), initial_step_size=0.1, mm_diag=not dense, **({"num_integration_steps": 7} if kind == "hmc" else {"max_treedepth": 6}))
         k.set_model(gs.DictInterface(K.lp_ab))
         KS = NUTSKernelState if kind == "nuts" else HMCKernelState
         imm0 = jnp.eye(d) if dense else jnp.ones(d)
@@ -36,7 +36,7 @@ def dict_scenario(chk, kind, keys, dense):
             s0 = rec["state_in"]
             return dict(state=out.model_state, ld_probe=rec["logdensity_fn"](probe), ss=rec["step_size"], imm=rec["inverse_mass_matrix"], pos0=s0.position, ld0=s0.logdensity,
                         grad0=s0.logdensity_grad, ks=(out.kernel_state.step_size, out.kernel_state.inverse_mass_matrix), acc=out.info.acceptance_prob, code=out.info.error_code,
-                        extra={kk: vv for kk, vv in rec.items() if kk in ("num_integration_steps", "max_num_doublings")})
+                        extra={kk: jnp.asarray(vv) for kk, vv in rec.items() if kk in ("num_integration_steps", "max_num_doublings")})
         key = jax.random.PRNGKey(4)
         tag = f"{kind}[{','.join(keys)}]{'dense' if dense else 'diag'}"
         pre = "".join(ch for ch in tag if ch.isalnum())
@@ -71,6 +71,14 @@ def dict_scenario(chk, kind, keys, dense):
             gl.append(cells(V.out["grad0"]["b"])[0] == -V.exp(b) + a[0] / 2)
         return [], z3.And(*gl)
     mk("the sampler starts at the current block values with their log-density and its (autodiff = analytic) gradient", g_init, "init-state")
+    opts = V_opts = None
+
+    def g_opts(V):
+        ex = V.out["extra"]
+        want = {"num_integration_steps": getattr(k, "num_integration_steps", None)} if kind == "hmc" else {"max_num_doublings": k.max_treedepth}
+        ok = all(kk in ex and int(np.asarray(cells(ex[kk])[0].as_long() if z3.is_int_value(cells(ex[kk])[0]) else -1)) == int(vv) for kk, vv in want.items())
+        return [], z3.BoolVal(bool(ok))
+    mk("the sampler is built with the kernel's own integration settings (HMC: num_integration_steps, NUTS: max_num_doublings = max_treedepth)", g_opts, "options")
     mk("step size and inverse mass matrix are passed to the sampler unchanged; the kernel state passes through",
        lambda V: ([], z3.And(cells(V.out["ss"])[0] == ss, all_eq(V.out["imm"], simm), cells(V.out["ks"][0])[0] == ss, all_eq(V.out["ks"][1], simm))), "tuning")
 
